@@ -17,7 +17,7 @@ CLAIMED = {
             "recovers exactly the original bytes. Correspondence: the codec filters, explode/implode, tobytes, split/join, ascii case "
             "against the model on strings over ASCII specials, multi-byte and invalid bytes. Oracles: /bin/sh on 3000 words (alone and "
             "inside format strings), Python csv/json/html/urllib/base64 as consumers, malformed base64/percent input, character counting "
-            "of length/explode/indices, regex match offsets and split reassembly. Partial: regex engine by contract; csv/tsv by oracle.",
+            "of length/explode/indices, regex match offsets and split reassembly. @csv rows are read back field by field and written TSV fields are clean (Fmts/Tabular.v). Partial: regex engine by contract.",
             "7.13", "Coq proof (codecs, shell quoting) + model/implementation correspondence + independent consumers"),
     "C14": ("Theorems: a string that the YAML writer leaves unquoted is read back as that string (must_quote vs the reader's "
             "resolution of plain scalars, for every byte string), is one plain scalar for the scanner and cannot be taken for structure "
@@ -126,7 +126,7 @@ CLAIMED = {
             "to depth 2 over 14 atoms, random beyond) x small inputs through [p], path(p), path_value(p), p |= u and the assignment "
             "forms, implementation vs model. Oracle on the implementation: path/path_value/getpath agreement, the manual's reduction "
             "rules for |= as program equations, iter_upd/index_upd/slice_upd of the manual, value-constructing expressions fail. "
-            "getpath(path(p)) = p: for paths of any length through iteration, indices, slices and optional parts, every (value, path) pair that is yielded addresses its value - indexing the input along the path gives exactly the value (for values whose objects can be addressed by their own keys; a NaN key is the excluded case). Partial: the update table is not yet proved; the path evaluator's clauses for pipes and calls rest on the correspondence.", "7.2",
+            "getpath(path(p)) = p: for paths of any length through iteration, indices, slices and optional parts, every (value, path) pair that is yielded addresses its value - indexing the input along the path gives exactly the value (for values whose objects can be addressed by their own keys - proved for all JSON-like values; a NaN key is the excluded case). Partial: the update table is not yet proved; the path evaluator's clauses for pipes and calls rest on the correspondence.", "7.2",
             "Coq proof (path level) + model/implementation correspondence + in-language identities"),
     "C10": ("Theorems: abs_index selects exactly the positions inside (negatives from the end), slice bounds are clipped into [0,len] "
             "with non-negative length, open bounds give the whole sequence. Correspondence + Python list-model oracle: exhaustive "
